@@ -858,7 +858,7 @@ func (d *TD) call(name string, ap *Args, fn func() error) string {
 	// a call that had to wait for the engine lock (tableGameOpen sleeps with it between its retries) ran against a later
 	// state than the one projected before it: the line then carries no pre-state
 	prep := &pre
-	if time.Since(t0) > 40*time.Millisecond {
+	if time.Since(t0) > 400*time.Millisecond { // (the retry loop sleeps 3 s at a time; a slow listener of the scenario stays far below)
 		prep = nil
 		if ap.Note == "" {
 			ap.Note = "waited"
